@@ -67,6 +67,47 @@ pub fn pipeline_scn(
   })
 }
 
+/// two producer threads push into ONE hot `create` source (the same observer)
+pub fn shared_source_scn(build: Build, scripts: Vec<Vec<Emit<i64>>>, via_map: bool, q: Option<u32>, t: Option<u32>) -> Scn {
+  let name = format!("c19/one observer shared by two threads{} {}", if via_map { ".map" } else { "" }, script_label(&scripts));
+  scn(&name, "shared-observer", q, t, move || {
+    let rec = Rec::new();
+    let causes = Causes::new();
+    let (rec2, causes2) = (rec.clone(), causes.clone());
+    let build = build.clone();
+    let scripts = scripts.clone();
+    let body: Body = Box::new(move || {
+      let hots: Vec<Hot<i64>> = vec![Hot::new(), Hot::new()];
+      let o = build(&hots);
+      let o = if via_map { o.map(|x| x) } else { o };
+      let _sub = rec2.sub_i64(&o);
+      let mut hs = vec![];
+      for (i, sc) in scripts.iter().enumerate().skip(1) {
+        let (h, sc, c) = (hots[0].clone(), sc.clone(), causes2.clone());
+        hs.push(thread::spawn(move || {
+          for e in &sc {
+            c.mark(&format!("s{}:{}", i, emit_label(e)));
+            h.emit(e);
+          }
+        }));
+      }
+      for e in &scripts[0] {
+        causes2.mark(&format!("s0:{}", emit_label(e)));
+        hots[0].emit(e);
+      }
+      for h in hs {
+        let _ = h.join();
+      }
+    });
+    let check: Check = Box::new(move |e: &ExecEnd| {
+      let mut v = base_violations(e, &[]);
+      v.extend(contract_violations(&rec, &causes));
+      Verdict { outcome: rec.short(), violations: v }
+    });
+    (body, check)
+  })
+}
+
 pub fn subject_scn(kind: SubjKind, ops: Vec<Vec<Emit<i64>>>, via_map: bool, q: Option<u32>, t: Option<u32>) -> Scn {
   let name = format!("c19/{:?}Subject{} {}", kind, if via_map { ".map" } else { "" }, script_label(&ops));
   let family = format!("subject-{:?}{}", kind, if via_map { "-via-map" } else { "-direct" }).to_lowercase();
@@ -144,12 +185,27 @@ pub fn scenarios() -> Vec<Scn> {
       v.push(pipeline_scn(name, &fam, b.clone(), vec![vec![N(1), E(7)], vec![N(0), E(8)]], via_map, None, Some(3)));
     }
   }
+  // one hot source whose observer is used by two producer threads (a subscriber directly on it, and through map)
+  let shared: Build = Arc::new(|h: &[Hot<i64>]| {
+    // both "sources" are the same hot source: whatever thread pushes, it reaches the same observer
+    let _ = &h[1];
+    h[0].observable()
+  });
+  for via_map in [false, true] {
+    for scripts in [vec![vec![N(1), C], vec![N(2), C]], vec![vec![C], vec![C]], vec![vec![E(7)], vec![E(8)]], vec![vec![N(1), E(7)], vec![C]]] {
+      // thread i drives hots[i]; route the second thread to the first source by giving it the same Hot
+      v.push(shared_source_scn(shared.clone(), scripts, via_map, Some(2), Some(3)));
+    }
+  }
   for kind in [SubjKind::Plain, SubjKind::Behavior, SubjKind::Replay, SubjKind::Async] {
     for via_map in [false, true] {
       let q = if kind == SubjKind::Plain || !via_map { Some(2) } else { None };
       v.push(subject_scn(kind, vec![vec![N(1)], vec![C]], via_map, q, Some(3)));
       v.push(subject_scn(kind, vec![vec![N(1)], vec![E(7)]], via_map, q, Some(3)));
       v.push(subject_scn(kind, vec![vec![C], vec![E(7)]], via_map, q, Some(3)));
+      // the same terminal signalled from two threads at once
+      v.push(subject_scn(kind, vec![vec![C], vec![C]], via_map, q, Some(3)));
+      v.push(subject_scn(kind, vec![vec![E(7)], vec![E(8)]], via_map, if via_map { None } else { q }, Some(3)));
       v.push(subject_scn(kind, vec![vec![N(1), N(2)], vec![C], vec![E(7)]], via_map, None, Some(2)));
     }
   }
